@@ -68,7 +68,7 @@ CHECKS["C04"] = dict(
     design="5 C04", technique="Coq proof (invariant Forest by induction over operation histories, effect lemmas per operation) + differential correspondence + forest oracle",
     note=WORLD_NOTE + "Aggregate iterators and constructor-argument copying are checked by the harness oracle (the model has no shared mutable defaults to get wrong). Same-list / repeated-value assignment (former finding D4) as for C03.")
 CHECKS["C05"] = dict(
-    text="Theorems (Props/C05.v, 23) for every reachable state and every query: the four interval-scope lookups return exactly the blocks satisfying the on/at criterion, each once; nothing without "
+    text="Theorems (Props/C05.v, 24) for every reachable state and every query (and C05_route_independent: any two histories arriving at the same structure give the four interval-scope lookups the same blocks): the four interval-scope lookups return exactly the blocks satisfying the on/at criterion, each once; nothing without "
          "an address; code/data filters exact; section/module/IR scope: exact composition through byte_intervals_on plus the envelope (sound, complete inside the interval's extent, no duplicates). "
          "Correspondence: edit histories with bursts, boundary queries +-1, steps 1-3, zero-sized and overlapping blocks; exact comparison with the model; direct oracle = fresh scan (envelope above interval scope).",
     design="5 C05", technique="Coq proof (Sync invariant of the lazy trees + exactness of the tree search) + differential correspondence + fresh-scan oracle",
